@@ -16,7 +16,7 @@ class LdrsbRegisterA1(LdrsbRegister):
         wback = (not index) or w
         shift_t = SRType.LSL
         shift_n = 0
-        if rt == 15 or rm == 15 or (wback and (rn == 15 and rn == rt)) or (arch_version() < 6 and wback and rm == rn):
+        if rt == 15 or rm == 15 or (wback and (rn == 15 or rn == rt)) or (arch_version() < 6 and wback and rm == rn):
             print('unpredictable')
         else:
             return LdrsbRegisterA1(instr, add=add, wback=wback, index=index, m=rm, t=rt, n=rn, shift_t=shift_t,
